@@ -177,6 +177,17 @@ CLAIMED["C14"] = dict(
     ref="DESIGN.md section 2 (C14)",
     technique="TLA+ definition of the failure judgement + TLC enumeration of the fault matrix + TLC validation of recorded assembly outcomes")
 
+CLAIMED["C20"] = dict(
+    text="FJCli.tla defines Effective(options) - the documented defaults (width 64, format version 3 with an output file, standard library unless "
+         "disabled, lzma preset 6) - and the agreement of the three routes. TLC enumerates EVERY combination of -w/-v/--no_stl/-d/--werror/--lzma_preset/-s "
+         "(with -o); for the selected combinations and programs the harness runs `fj ... -o`, `fj --asm -o` + `fj --run` (subprocesses) and "
+         "flipjump.assemble/run (one long-lived interpreter), records width/version header fields and digest of each .fjm, program output and "
+         "termination, and TLC judges every record (Trace_FJCli): header = Effective, byte-identical files across routes, equal runs.",
+    note="The default version WITHOUT -o (documented: 1) is not observable from outside the command and is not judged. Quick runs a seeded subset "
+         "of the 720 combinations (all -v rows always); thorough runs more.",
+    ref="DESIGN.md section 2 (C20)",
+    technique="TLA+ definition of effective options + TLC enumeration of the option space + TLC validation of recorded three-route outcomes")
+
 NOT_YET = {}
 
 
